@@ -35,6 +35,14 @@ SCRATCH_ROOT = "/dev/shm" if os.path.isdir("/dev/shm") else "/var/tmp"
 IGN = shutil.ignore_patterns(".git", "__pycache__", ".hypothesis", "*.egg-info", ".tox", ".pytest_cache")
 
 
+def _head(path):
+    return subprocess.run(["git", "-C", path, "rev-parse", "--short", "HEAD"], stdout=subprocess.PIPE, text=True).stdout.strip()
+
+
+VERIF_COMMIT = _head(HERE)      # (the working tree may be ahead of it by uncommitted edits: the last commit is what is recorded)
+REPO_COMMIT = _head("/repo")
+
+
 def baseline_failures():
     b = json.load(open("/root/.vp/BASELINE.json"))
     out = set()
@@ -134,7 +142,8 @@ def run_one(name, checks, tier):
             first = " / ".join(x.strip() for x in lines[v[0] + 1:v[0] + 4])[:500] if v else ""
             if p.returncode not in (0, 1):
                 first = "INTERNAL: " + " | ".join(lines[-4:])[:500]
-            res[c] = {"tier": tier, "exit": p.returncode, "violations": len(v), "first": first, "secs": round(time.time() - t0)}
+            res[c] = {"tier": tier, "exit": p.returncode, "violations": len(v), "first": first, "secs": round(time.time() - t0),
+                      "verif_commit": VERIF_COMMIT, "repo_commit": REPO_COMMIT}
             print("%s %s[%s]: exit=%d violations=%d %ds %s" % (name, c, tier, p.returncode, len(v), time.time() - t0, first[:160]), flush=True)
     finally:
         shutil.rmtree(scratch, ignore_errors=True)
@@ -167,8 +176,9 @@ def write_results():
             fh.write("## %s (%s)\n\n%s\n\n" % (meta["name"], meta["property"], meta.get("needs_to_manifest", "")))
             for k in sorted(res):
                 r = res[k]
-                fh.write("* `%s`: exit=%d, %d VIOLATION line(s), %ss%s\n" % (
-                    k, r["exit"], r["violations"], r["secs"], (" - `%s`" % r["first"].replace("`", "'")) if r["first"] else ""))
+                fh.write("* `%s`: exit=%d, %d VIOLATION line(s), %ss%s%s\n" % (
+                    k, r["exit"], r["violations"], r["secs"], (" [/verif %s]" % r["verif_commit"]) if r.get("verif_commit") else "",
+                    (" - `%s`" % r["first"].replace("`", "'")) if r["first"] else ""))
             fh.write("\n")
 
 
